@@ -23,7 +23,7 @@ from .common import cN, cnat, cbool, clist, copt, cstr
 THEOREMS = [
     "process_realises_inline", "decode_heap_is_decode_tree", "multiref_equiv", "outlined_inlines_back",
     "outline_invariant", "fuel_suffices", "dangling_href_local", "dangling_decodes_to_href_object",
-    "empty_array_is_empty_list", "array_items_typed", "unmarked_before_response_refuted",
+    "empty_array_is_empty_list", "array_items_typed", "array_is_list", "unmarked_before_response_refuted",
 ]
 
 PRE = "From SV Require Import Lib.Base C18.Model."
@@ -682,6 +682,8 @@ def show(v):
         return "%s{%s}" % (v.__class__.__name__, ", ".join("%s=%s" % (k, show(getattr(v, k))) for k in v.__keylist__))
     if isinstance(v, list):
         return "[%s]" % ", ".join(show(x) for x in v)
+    if isinstance(v, str):
+        return repr(str(v))         # Text prints like the str it extends
     return repr(v)
 
 
@@ -995,8 +997,11 @@ def run(ck):
                              "replaced by the referenced content: %s" % m["r_out"][:300], pl)
 
     ck.rule = ("one hand-written interface (Person with string/int accessors, nillable Person, empty string array, one "
-               "int array shared by two accessors with untyped items, array of Person) in 22 out-lined forms incl. "
+               "int array shared by two accessors with untyped items, array of Person) in %d random out-lined forms incl. "
                "unmarked independent elements before the response and XMLSchema-instance bound to another prefix; "
+               "EXHAUSTIVE: all 2^%d subsets of the occurrences of %s written as references (marked / unmarked-after / "
+               "mixed, prefixes on the Envelope or on the independent elements); one probe with two independent "
+               "elements binding one prefix to two namespaces (outside Coq); "
                "%d generated rpc/encoded interfaces (1-2 namespaces, 1-3 struct types, arrays of builtin/struct/array "
                "items, recursive types) x %d values (depth 1-3, shared sub-values, nil and absent accessors, empty "
                "arrays, typed/untyped elements and items) x %d out-lined forms: each occurrence in line or href "
@@ -1004,7 +1009,10 @@ def run(ck):
                "multiRef/item/ref/Object/type name, shuffled, before/after the response, marked root=0/false, unmarked, "
                "mixed, response marked root=1 or not, prefixes on the Envelope or on each independent element, 4-7 "
                "spellings of each prefix, compact/indented, dangling href in 12%%; distinct = (value, out-lined "
-               "document); non-trivial = at least one reference" % (n_if, n_val, n_out))
+               "document); non-trivial = at least one reference"
+               % ((12 if quick else 40) + 10, ck.extra.get("exhaustive_occurrences", 0),
+                  "a small value (Person: name, one int array shared by two accessors)" if quick
+                  else "the hand-written value", n_if, n_val, n_out))
     if proof_ok is False:
         ck.unproved("proof obligation of C18 no longer checks: " + ck.proof_log[-1500:], {"log": ck.proof_log[-3000:]})
     dis = sorted(disagree | inst_bad)
